@@ -52,6 +52,8 @@ def run(ctx):
         if hbin:
             res = ctx.correspondence("crash", hbin, ["crash"], drv, ["ledger"], timeout=2400)
             ctx.judge(res, theorem_hint="Poly.Props.C12.recovery_exact_committed / recovery_exact_lost (the model of submitBlock / recoverStore no longer matches ledger_store.go)")
+            res2 = ctx.correspondence("firststart", hbin, ["firststart"], drv, ["ledger"], timeout=1200)
+            ctx.judge(res2, theorem_hint="Poly.Props.C12.first_start_crash_harmless (the model of the first start / StateStore.ClearAll no longer matches the Go code)")
             if drv is None and ctx.lean_ok:
                 ctx.violate("precondition:driver", "drv_ledger does not build", {"kind": "driver"}, found_input=False)
     finally:
